@@ -885,5 +885,35 @@ pub fn selftest() -> Vec<String> {
     check("parse_fact", parse_fact("p(a,20)", &sy) == Ok(f("a", "p", "20")), "".into());
     check("worlds_cycle", (w[&f("a", "t", "a")] - 0.15).abs() < 1e-12 && (w[&f("a", "t", "b")] - 0.5).abs() < 1e-12, format!("{:?}", w));
 
+    // 16. shapes of the negated part used by the C05 family F / C06 negation families
+    // two negated atoms: p(a,b) and p(b,a) block each other, p(c,d) is blocked by r(c,d), p(a,c) passes
+    let two_neg = vec![Rule { pos: vec![[x, c("p"), y]], neg: vec![[y, c("p"), x], [x, c("r"), y]], heads: vec![[x, c("q"), y]], ..Default::default() }];
+    let inp = vec![f("a", "p", "b"), f("b", "p", "a"), f("a", "p", "c"), f("c", "p", "d"), f("c", "r", "d")];
+    let m = model_set(&two_neg, &inp, &sy, nn).unwrap();
+    check("two_negated_atoms", m.len() == 6 && m.contains(&f("a", "q", "c")), format!("{:?}", m));
+    // a fully ground negated atom switches the whole rule
+    let gneg = vec![Rule { pos: vec![[x, c("p"), y]], neg: vec![[c("a"), c("p"), c("a")]], heads: vec![[x, c("q"), y]], ..Default::default() }];
+    let m = model_set(&gneg, &[f("a", "p", "b"), f("b", "p", "c")], &sy, nn).unwrap();
+    check("ground_negated_atom_absent", m.len() == 4 && m.contains(&f("a", "q", "b")) && m.contains(&f("b", "q", "c")), format!("{:?}", m));
+    let m = model_set(&gneg, &[f("a", "p", "b"), f("a", "p", "a")], &sy, nn).unwrap();
+    check("ground_negated_atom_present", m.len() == 2, format!("{:?}", m));
+    // filter next to a negated atom: p(a,1) fails the filter, p(b,20) is blocked by q(b,20)
+    let fneg = vec![Rule { pos: vec![[x, c("p"), y]], neg: vec![[x, c("q"), y]], filters: vec![Filter { var: 1, op: FOp::Gt, rhs: Rhs::Num(5.0) }], heads: vec![[x, c("r"), y]], ..Default::default() }];
+    let m = model_set(&fneg, &[f("a", "p", "20"), f("b", "p", "20"), f("b", "q", "20"), f("a", "p", "1")], &sy, nn).unwrap();
+    check("filter_and_negated_atom", m.len() == 5 && m.contains(&f("a", "r", "20")), format!("{:?}", m));
+    // worlds, two negated atoms whose formulas share a seed: r(a,b) needs p(a,b) and p(b,b);
+    // q(a,b) = p(a,b) and not p(b,a) [never there] and not r(a,b) = p(a,b) and not p(b,b) = .5 * .6;
+    // q(b,b) = p(b,b) and not p(b,b) = impossible
+    let corr = vec![
+        Rule { pos: vec![[x, c("p"), z], [z, c("p"), y]], heads: vec![[x, c("r"), y]], ..Default::default() },
+        Rule { pos: vec![[x, c("p"), y]], neg: vec![[y, c("p"), x], [x, c("r"), y]], heads: vec![[x, c("q"), y]], ..Default::default() },
+    ];
+    let w = worlds(&corr, &[], &[(f("a", "p", "b"), 0.5), (f("b", "p", "b"), 0.4)], &sy, nn).unwrap();
+    check(
+        "worlds_two_correlated_negated_atoms",
+        (w[&f("a", "q", "b")] - 0.3).abs() < 1e-12 && (w[&f("a", "r", "b")] - 0.2).abs() < 1e-12 && (w[&f("b", "r", "b")] - 0.4).abs() < 1e-12 && !w.contains_key(&f("b", "q", "b")) && w.len() == 5,
+        format!("{:?}", w),
+    );
+
     errs
 }
